@@ -227,6 +227,18 @@ def _comb(col, ctx, np, op, dt, only=None):
                         col.violation('C18/%s/row-dependence' % op, '%s on batch rows %s (%s pool): output row %d differs from the result for that row alone' % (op, list(sel), dt, pos),
                                       {'kind': 'comb', 'op': op, 'dt': dt, 'batch': list(sel)})
                         break
+    # memory layout of the batch is not part of its value: Fortran-ordered / strided / reversed batches give what their C-contiguous copy gives
+    for (f1, f2, mode, dist) in ([] if only else subset):
+        pp = build(f1, f2, mode, dist, 'float32', mean=np.array(mean_int, dtype='float64'))
+        wide = np.zeros((8, 2 * L), dtype=dt); wide[::2, ::2] = rows
+        for vn, a in {'fortran': np.asfortranarray(rows), 'strided': wide[::2, ::2], 'reversed-rows': rows[::-1]}.items():
+            col.evaluations += 1; col.transitions += 2
+            try:
+                g1 = pp(a); g2 = pp(np.ascontiguousarray(a))
+            except Exception as e:
+                col.violation('C18/%s/layout-raised' % op, '%s on a %s batch: %s: %s' % (op, vn, type(e).__name__, e), {'kind': 'comb', 'op': op, 'dt': dt, 'view': vn}); continue
+            if g1.shape != g2.shape or not np.array_equal(g1, g2, equal_nan=True):
+                col.violation('C18/%s/layout' % op, '%s on a %s batch (%s) differs from the result on its C-contiguous copy' % (op, vn, dt), {'kind': 'comb', 'op': op, 'dt': dt, 'view': vn})
     col.count('legal_configurations', legal); col.count('refused_configurations', refused); col.count('entries_that_would_wrap_in_the_input_dtype', wrapping)
     col.sample({'operator': op, 'dtype': dt, 'rows': rows.tolist()[:2], 'legal_configurations': legal, 'refused': refused}, limit=1)
     if not only:
